@@ -113,3 +113,40 @@ def restore(snap):
         changed.append("sys.recursionlimit")
         sys.setrecursionlimit(snap["reclimit"])
     return changed
+
+
+def diff_names(snap):
+    """Names whose binding (or shallow contents) differ from the snapshot, without restoring;
+    changed containers are reported with a digest of their current contents' reprs."""
+    import re
+    addr = re.compile(r"0x[0-9a-fA-F]+")
+    changed = []
+    for mname, mod, d0 in snap["mods"]:
+        d = vars(mod)
+        for k in d.keys():
+            if k not in d0:
+                changed.append(f"{mname}.{k}+")
+        for k, v in d0.items():
+            if k not in d or d[k] is not v:
+                changed.append(f"{mname}.{k}={type(d.get(k)).__name__}")
+    for cname, cls, cd0 in snap["classes"]:
+        cur = vars(cls)
+        for k in cur.keys():
+            if k not in cd0:
+                changed.append(f"{cname}.{k}+")
+        for k, v in cd0.items():
+            if k in ("__dict__", "__weakref__"):
+                continue
+            if k not in cur or cur[k] is not v:
+                val = cur.get(k)
+                tag = type(val).__name__
+                opts = getattr(val, "options", None)
+                if opts is not None and hasattr(opts, "tree_class"):
+                    tag += ":" + getattr(opts.tree_class, "__name__", "?")
+                changed.append(f"{cname}.{k}={tag}")
+    for name, obj, c in snap["containers"]:
+        if not _same(c, obj):
+            changed.append(f"{name}~{addr.sub('0x', repr(sorted(map(repr, (dict.keys(obj) if isinstance(obj, dict) else obj)))))[:300]}")
+    if sys.getrecursionlimit() != snap["reclimit"]:
+        changed.append(f"recursionlimit={sys.getrecursionlimit()}")
+    return sorted(changed)
